@@ -101,7 +101,7 @@ def job_ctx(env, cfg):
     cs = discover(env, cfg)["ctxs"]
     if not cs:
         raise Unsupported()
-    return cs[(env.job_seed // 11) % len(cs)]
+    return cs[env.job_seed % len(cs)]
 
 
 def ctx_for(env, cfg, cid):
